@@ -533,14 +533,12 @@ func doMatchStruct(vt reflect.Type, def string, i *int, tv *string) (bool, error
 		return false, err
 	}
 
-	/* anonymous struct */
-	if tn == "" && vt.Kind() == reflect.Struct {
-		return true, nil
-	}
+	/* an anonymous struct answers to any name, qualified or not */
+	anon := tn == "" && vt.Kind() == reflect.Struct
 
 	/* just a simple type with no qualifiers */
 	if tok == "" || tok == ":" || tok == ">" {
-		return tn == *tv, nil
+		return anon || tn == *tv, nil
 	}
 
 	/* otherwise, it must be a "." */
@@ -557,5 +555,5 @@ func doMatchStruct(vt reflect.Type, def string, i *int, tv *string) (bool, error
 
 	/* update parsing position */
 	*i = sp
-	return tn == *tv, nil
+	return anon || tn == *tv, nil
 }
